@@ -502,6 +502,26 @@ func (ex *Exec) applyContract(spec *FuncSpec, info calleeInfo, c *ssa.CallCommon
 		nr := ex.D.Fresh("$nextref", SInt)
 		ex.assume(Ge(nr, ex.getHeap(pre, "$nextref", SInt)))
 		ex.setHeap(post, "$nextref", nr)
+		// objects allocated by the callee get their type tags; existing tags stay
+		if _, touched := ex.heapSort["$typeof"]; touched {
+			pt := ex.getHeap(pre, "$typeof", ArrS(SInt, SInt))
+			nt := ex.D.Fresh("$typeof", ArrS(SInt, SInt))
+			r := BV("r!ty", SInt)
+			ex.assume(Forall([]BVar{{"r!ty", SInt}}, Imp(Lt(r, ex.getHeap(pre, "$nextref", SInt)), Eq(Select(nt, r), Select(pt, r)))))
+			if spec.Trusted {
+				// code outside goirc never allocates objects of goirc's struct types
+				ex.assume(Forall([]BVar{{"r!ty", SInt}}, Imp(Ge(r, ex.getHeap(pre, "$nextref", SInt)), Eq(Select(nt, r), IntLit(0)))))
+			} else {
+				ex.assume(Forall([]BVar{{"r!ty", SInt}}, Imp(Ge(r, nr), Eq(Select(nt, r), IntLit(0)))))
+				// new objects only get tags of struct types the callee may allocate
+				if fn := c.StaticCallee(); fn != nil && !c.IsInvoke() {
+					if as := ex.V.mayAlloc(fn); !as.unknown {
+						ex.assume(Forall([]BVar{{"r!ty", SInt}}, Imp(Ge(r, ex.getHeap(pre, "$nextref", SInt)), as.tagIn(Select(nt, r)))))
+					}
+				}
+			}
+			ex.setHeap(post, "$typeof", nt)
+		}
 	}
 	modTrace := false
 	for _, cl := range spec.Clauses {
